@@ -12,10 +12,10 @@ REPO = os.environ.get('VERIF_REPO', '/repo')
 
 
 class Module:
-    def __init__(self, relpath, repo=None):
+    def __init__(self, relpath, repo=None, text=None):
         self.relpath = relpath
         self.path = os.path.join(repo or REPO, relpath)
-        self.text = open(self.path).read()
+        self.text = open(self.path).read() if text is None else text
         self.drops = []
         self.prange_lines = []
         self.decorators = {}
@@ -35,6 +35,19 @@ class Module:
                 for m in n.body:
                     if isinstance(m, ast.FunctionDef):
                         self.funcs['%s.%s' % (n.name, m.name)] = m
+        self.imports = {}
+        pkg = os.path.dirname(relpath)
+        for n in ast.walk(self.tree):
+            if isinstance(n, ast.ImportFrom) and n.level >= 1:
+                base = pkg
+                for _ in range(n.level - 1):
+                    base = os.path.dirname(base)
+                for a in n.names:
+                    if n.module:
+                        modpath = os.path.join(base, *n.module.split('.'))
+                        self.imports[a.asname or a.name] = (modpath, a.name)       # from .mod import name
+                    else:
+                        self.imports[a.asname or a.name] = (os.path.join(base, a.name), None)   # from . import mod
         self.globals_const = {}
         for n in self.tree.body:
             if isinstance(n, ast.Assign) and len(n.targets) == 1 and isinstance(n.targets[0], ast.Name) \
